@@ -430,31 +430,38 @@ type tierSpec struct {
 }
 
 var tiers = map[string]map[string]tierSpec{
+	// {runs, runs per worker process, wall-clock budget in seconds}
 	"quick": {
-		"default": {3200, 200, 150},
-		"C01":     {40000, 2500, 120},
-		"C04":     {4000, 250, 150},
-		"C08":     {480, 30, 150},
-		"C10":     {8000, 500, 120},
-		"C17":     {32000, 2000, 120},
-		"C11":     {7680, 480, 150},
-		"C13":     {4800, 300, 150},
-		"C14":     {4000, 250, 150},
-		"C16":     {4000, 250, 150},
-		"C06":     {4800, 300, 150},
-		"C12":     {1280, 8, 150},
-		"C15":     {4000, 250, 150},
-		"C19":     {2400, 150, 150},
+		"default": {20000, 1000, 150},
+		"C01":     {240000, 15000, 150},
+		"C04":     {32000, 1000, 150},
+		"C06":     {48000, 1500, 150},
+		"C08":     {2400, 75, 150},
+		"C10":     {32000, 1000, 150},
+		"C11":     {64000, 640, 150},
+		"C12":     {9600, 100, 150},
+		"C13":     {40000, 1250, 150},
+		"C14":     {32000, 1000, 150},
+		"C15":     {32000, 1000, 150},
+		"C16":     {32000, 1000, 150},
+		"C17":     {256000, 8000, 150},
+		"C19":     {14400, 450, 150},
 	},
 	"thorough": {
-		"default": {200000, 400, 1200},
-		"C01":     {2000000, 5000, 1200},
-		"C04":     {150000, 400, 1500},
-		"C08":     {24000, 60, 1500},
-		"C10":     {600000, 1000, 1200},
-		"C17":     {2000000, 4000, 1200},
-		"C11":     {384000, 640, 1500},
-		"C12":     {60000, 8, 1500},
+		"default": {600000, 1000, 1500},
+		"C01":     {12000000, 25000, 1500},
+		"C04":     {1600000, 1000, 1500},
+		"C06":     {2400000, 1500, 1500},
+		"C08":     {120000, 75, 1500},
+		"C10":     {1600000, 1000, 1500},
+		"C11":     {3200000, 640, 1500},
+		"C12":     {480000, 100, 1500},
+		"C13":     {2000000, 1250, 1500},
+		"C14":     {1600000, 1000, 1500},
+		"C15":     {1600000, 1000, 1500},
+		"C16":     {1600000, 1000, 1500},
+		"C17":     {12800000, 8000, 1500},
+		"C19":     {720000, 450, 1500},
 	},
 }
 
